@@ -110,7 +110,12 @@ def run_many(scs, profile):
     return [res[a:a + k] for a, k in spans]
 
 
-def violations(sc, profile='debug', only=None, res=None):
+def on_wall(sc, g):
+    ax = AX[sc['dim']]
+    return any(g[a] == sc['anchor'][a] or g[a] == sc['anchor'][a] + sc['width'][a] for a in ax)
+
+
+def violations(sc, profile='debug', only=None, res=None, include_known=False):
     """-> list of (property id, text) for every property statement that the real code violates on this scenario"""
     out = []
     if res is None:
@@ -202,6 +207,32 @@ def violations(sc, profile='debug', only=None, res=None):
                     add('C06', 'face %d: shift %r is not a lattice vector of the box %r' % (f, fa['shift'], w))
         if per and fa['right'] is None and fa['area'] > 1e-9 * fscale and any(abs(nrm[a]) > 0.5 for a in ax):
             add('C06', 'periodic tessellation has a boundary face (face %d, normal %r)' % (f, nrm))
+    # ---- C04: every constructed cell is a closed surface (sum of area x outward normal = 0) and satisfies the divergence identity
+    for k, c in enumerate(cells):
+        if not sel(k) or len(cells) != n:
+            continue
+        if min(w[a] for a in ax) < 1e-12:
+            continue        # at box widths below 1e-12 the absolute term of the clip error bound dominates; area accuracy there is not judged
+        if on_wall(sc, gens[k]) and not include_known:
+            continue        # known finding (C04 on-wall-generator-face-area): the wall face through the generator has an arbitrary triangle sign
+        tot = [0.0, 0.0, 0.0]
+        div = 0.0
+        nf = 0
+        for f in conn[c['offset']:c['offset'] + c['count']]:
+            if f >= len(faces):
+                continue
+            fa = faces[f]
+            sgn = 1.0 if fa['left'] == k else -1.0
+            if fa['left'] != k and not (fa['right'] == k and fa['shift'] is None):
+                continue
+            nf += 1
+            for a in range(3):
+                tot[a] += sgn * fa['area'] * fa['normal'][a]
+            div += sgn * fa['area'] * sum(fa['normal'][a] * (fa['centroid'][a] - gens[k][a]) for a in ax)
+        if nf and max(abs(x) for x in tot) > 1e-7 * fscale:
+            add('C04', 'cell %d is not a closed surface: sum of area x outward normal over its %d faces is %r' % (k, nf, tot))
+        elif nf and c['volume'] > 0 and abs(div / dim - c['volume']) > 1e-7 * box:
+            add('C04', 'cell %d: divergence theorem gives volume %r from its faces, the cell reports %r' % (k, div / dim, c['volume']))
     # ---- C03: periodic faces come in reciprocal pairs (both cells selected)
     for f, fa in enumerate(faces):
         if fa['shift'] is not None and fa['right'] is not None and sel(fa['right']) and fa['area'] > 1e-7 * fscale:
